@@ -2,6 +2,624 @@
 
 package relay
 
-import "testing"
+// C11 part "faults" (E3 style): ONE CONNECT (and one RESERVE) against a real relay with exactly one
+// deviation from the honest exchange - at each step of the hop / stop handshake, at each resource-manager
+// call, and in the relay phase (payload sizes around the data limit in each direction, every way a circuit
+// can end). After every execution: circuit counters, connection-manager tags and the memory reserved in the
+// relay's service scope are back at their previous values; on a limited relay at most Limit.Data bytes were
+// forwarded per direction, as a prefix of what was sent, and both legs are closed at Limit.Duration.
 
-func c11Faults(t *testing.T) {}
+import (
+	"bytes"
+	"errors"
+	"fmt"
+	"runtime"
+	"sort"
+	"strings"
+	"sync"
+	"testing"
+	"testing/synctest"
+	"time"
+
+	"github.com/libp2p/go-libp2p/core/peer"
+	pbv2 "github.com/libp2p/go-libp2p/p2p/protocol/circuitv2/pb"
+	circuitproto "github.com/libp2p/go-libp2p/p2p/protocol/circuitv2/proto"
+	"github.com/libp2p/go-libp2p/p2p/protocol/circuitv2/util"
+	"github.com/libp2p/go-libp2p/x/verif/vrep"
+	"github.com/multiformats/go-varint"
+	"google.golang.org/protobuf/proto"
+)
+
+type c11FCase struct {
+	System  string `json:"system"`            // limited | unlimited
+	Pre     string `json:"pre"`               // fresh | dst-busy | src-busy
+	Kind    string `json:"kind"`              // connect | reserve
+	Request string `json:"request"`           // what the source does on the hop stream
+	Refuse  string `json:"refuse,omitempty"`  // resource-manager call refused
+	NoDial  bool   `json:"newstream_fails,omitempty"`
+	Dest    string `json:"destination,omitempty"` // what the destination does on the stop stream
+	Fwd     int    `json:"fwd_bytes,omitempty"`   // payload source -> destination
+	Bwd     int    `json:"bwd_bytes,omitempty"`   // payload destination -> source
+	Chunk   int    `json:"chunk,omitempty"`
+	End     string `json:"end,omitempty"` // how the circuit ends
+}
+
+func (c c11FCase) String() string {
+	var p []string
+	p = append(p, c.System, "pre="+c.Pre, c.Kind, "req="+c.Request)
+	if c.Refuse != "" {
+		p = append(p, "refuse="+c.Refuse)
+	}
+	if c.NoDial {
+		p = append(p, "newstream-fails")
+	}
+	if c.Dest != "" {
+		p = append(p, "dest="+c.Dest)
+	}
+	if c.End != "" {
+		p = append(p, fmt.Sprintf("fwd=%d bwd=%d chunk=%d end=%s", c.Fwd, c.Bwd, c.Chunk, c.End))
+	}
+	return strings.Join(p, " ")
+}
+
+// class is the case without the payload numbers (for counting distinct classes).
+func (c c11FCase) class() string {
+	d := c
+	d.Fwd, d.Bwd, d.Chunk = 0, 0, 0
+	return d.String()
+}
+
+type c11FVio struct{ Key, Desc string }
+
+type c11FResult struct {
+	Case    c11FCase
+	Reply   string
+	Outcome string
+	Vios    []c11FVio
+	Trace   []string
+}
+
+func c11FaultSystem(limited bool) *c11Cfg {
+	cfg := &c11Cfg{
+		Name: "unlimited",
+		RC:   Resources{ReservationTTL: time.Hour, MaxReservations: 4, MaxCircuits: 2, BufferSize: 16, MaxReservationsPerPeer: 1, MaxReservationsPerIP: 8, MaxReservationsPerASN: 8},
+		Clients: []c11ClientSpec{
+			{Label: "p1", Addrs: []c11AddrSpec{{Name: "A", Addr: "/ip4/198.51.100.1/tcp/4001", IP: "198.51.100.1"}}},
+			{Label: "p2", Addrs: []c11AddrSpec{{Name: "B", Addr: "/ip4/198.51.100.2/tcp/4002", IP: "198.51.100.2"}}},
+			{Label: "p3", Addrs: []c11AddrSpec{{Name: "C", Addr: "/ip4/198.51.100.3/tcp/4003", IP: "198.51.100.3"}}},
+		},
+	}
+	if limited {
+		cfg.Name = "limited"
+		cfg.RC.Limit = c11Limited()
+	}
+	return cfg
+}
+
+func c11Pattern(n int, seed byte) []byte {
+	b := make([]byte, n)
+	for i := range b {
+		b[i] = seed + byte(i*7)
+	}
+	return b
+}
+
+func c11Marshal(m proto.Message) []byte {
+	var buf bytes.Buffer
+	if err := util.NewDelimitedWriter(&buf).WriteMsg(m); err != nil {
+		panic(err)
+	}
+	return buf.Bytes()
+}
+
+var c11Garbage = []byte{6, 0xff, 0xff, 0xff, 0xff, 0xff, 0xff} // length 6, then bytes that are not a protobuf message
+
+func c11Oversize() []byte {
+	return append(varint.ToUvarint(5000), bytes.Repeat([]byte{0}, 64)...)
+}
+
+// honestCircuit opens src->dst the honest way; nil when the relay does not answer OK.
+func (sy *c11Sys) honestCircuit(src, dst int) *c11Circuit {
+	sy.dial(src, 0)
+	sy.dial(dst, 0)
+	mem := sy.observe().SvcMem
+	nOut := sy.host.outboundCount()
+	hop := sy.connectStart(src, 0, dst)
+	if sy.host.outboundCount() <= nOut {
+		return nil
+	}
+	stop := sy.host.outboundAt(nOut)
+	var sm pbv2.StopMessage
+	if ok, _, err := stop.hRecvMsg(&sm); !ok || err != nil || sm.GetType() != pbv2.StopMessage_CONNECT {
+		return nil
+	}
+	stop.hSendMsg(&pbv2.StopMessage{Type: pbv2.StopMessage_STATUS.Enum(), Status: pbv2.Status_OK.Enum()})
+	synctest.Wait()
+	if rep := c11ReadHopReply(hop); !rep.Got || rep.Status != pbv2.Status_OK {
+		return nil
+	}
+	return &c11Circuit{Src: src, Dst: dst, Hop: hop, Stop: stop, MemDelta: sy.observe().SvcMem - mem}
+}
+
+// c11RunFault executes one case from a fresh system (inside a bubble).
+func c11RunFault(fc c11FCase) (res c11FResult) {
+	res.Case = fc
+	limited := fc.System == "limited"
+	cfg := c11FaultSystem(limited)
+	sy := c11NewSys(cfg)
+	defer sy.shutdown()
+	vio := func(key, f string, a ...any) { res.Vios = append(res.Vios, c11FVio{key, fmt.Sprintf(f, a...)}) }
+	trace := func(f string, a ...any) { res.Trace = append(res.Trace, fmt.Sprintf(f, a...)) }
+	var slept time.Duration
+	sleep := func(d time.Duration) {
+		time.Sleep(d)
+		slept += d
+		synctest.Wait()
+	}
+	const src, dst, other = 0, 1, 2
+
+	// ----- previous state -----
+	for c := range cfg.Clients {
+		sy.dial(c, 0)
+	}
+	for _, c := range []int{dst, other} {
+		if rep, _ := sy.reserve(c, 0); !rep.Got || rep.Status != pbv2.Status_OK {
+			vio("baseline-failed", "honest RESERVE of %s answered %s", cfg.Clients[c].Label, rep.class())
+			return
+		}
+	}
+	mid := sy.observe()
+	var pre *c11Circuit
+	switch fc.Pre {
+	case "dst-busy":
+		pre = sy.honestCircuit(other, dst)
+	case "src-busy":
+		pre = sy.honestCircuit(src, other)
+	}
+	if fc.Pre != "fresh" && pre == nil {
+		vio("baseline-failed", "honest circuit for the previous state %q was not opened", fc.Pre)
+		return
+	}
+	before := sy.observe()
+	trace("previous state: %s", before)
+	disconnected := map[int]bool{}
+
+	// ----- the attempt -----
+	var hop, stop *c11Stream
+	established := false
+	var sentF, sentB []byte
+	hopBase, stopBase := 0, 0
+	conn := sy.dial(src, 0)
+	if fc.Refuse != "" {
+		sy.rm.refuseNext(fc.Refuse)
+	}
+	if fc.NoDial {
+		sy.host.mu.Lock()
+		sy.host.newStreamErr = errors.New("c11: scripted failure to open the stop stream")
+		sy.host.mu.Unlock()
+	}
+	if fc.Dest == "reset-on-open" {
+		sy.host.mu.Lock()
+		sy.host.onOutbound = func(s *c11Stream) { s.hReset() }
+		sy.host.mu.Unlock()
+	}
+	nOut := sy.host.outboundCount()
+	hop = sy.host.inbound(conn, circuitproto.ProtoIDv2Hop)
+	var request proto.Message = &pbv2.HopMessage{Type: pbv2.HopMessage_CONNECT.Enum(), Peer: util.PeerInfoToPeerV2(peer.AddrInfo{ID: sy.ids[dst].id})}
+	if fc.Kind == "reserve" {
+		request = &pbv2.HopMessage{Type: pbv2.HopMessage_RESERVE.Enum()}
+	}
+	wire := c11Marshal(request)
+	switch fc.Request {
+	case "honest":
+		hop.hSend(wire)
+	case "honest-then-writes-fail":
+		hop.hFailWrites()
+		hop.hSend(wire)
+	case "reset":
+		hop.hReset()
+	case "eof":
+		hop.hCloseWrite()
+	case "partial-eof":
+		hop.hSend(wire[:len(wire)/2])
+		hop.hCloseWrite()
+	case "partial-silence":
+		hop.hSend(wire[:len(wire)/2])
+		synctest.Wait()
+		sleep(StreamTimeout)
+	case "silence":
+		synctest.Wait()
+		sleep(StreamTimeout)
+	case "garbage":
+		hop.hSend(c11Garbage)
+	case "oversize":
+		hop.hSend(c11Oversize())
+	case "wrong-type":
+		hop.hSendMsg(&pbv2.HopMessage{Type: pbv2.HopMessage_STATUS.Enum(), Status: pbv2.Status_OK.Enum()})
+	case "no-peer":
+		hop.hSendMsg(&pbv2.HopMessage{Type: pbv2.HopMessage_CONNECT.Enum()})
+	case "bad-peer-id":
+		hop.hSendMsg(&pbv2.HopMessage{Type: pbv2.HopMessage_CONNECT.Enum(), Peer: &pbv2.Peer{Id: []byte{1, 2, 3}}})
+	case "unknown-peer":
+		hop.hSendMsg(&pbv2.HopMessage{Type: pbv2.HopMessage_CONNECT.Enum(), Peer: util.PeerInfoToPeerV2(peer.AddrInfo{ID: c11Identity("p4").id})})
+	default:
+		panic("c11: unknown request kind " + fc.Request)
+	}
+	synctest.Wait()
+
+	if sy.host.outboundCount() > nOut {
+		stop = sy.host.outboundAt(nOut)
+		var sm pbv2.StopMessage
+		ok, _, err := stop.hRecvMsg(&sm)
+		trace("stop stream opened to %s; STOP message received=%v err=%v type=%v; in flight: %s", stop.conn.remote.label, ok, err, sm.GetType(), sy.observe().counters())
+		stopBase = stop.outPos()
+		okMsg := &pbv2.StopMessage{Type: pbv2.StopMessage_STATUS.Enum(), Status: pbv2.Status_OK.Enum()}
+		switch {
+		case fc.Dest == "ok":
+			stop.hSendMsg(okMsg)
+		case fc.Dest == "reset-on-open":
+			// already reset
+		case fc.Dest == "reset":
+			stop.hReset()
+		case fc.Dest == "eof":
+			stop.hCloseWrite()
+		case fc.Dest == "garbage":
+			stop.hSend(c11Garbage)
+		case fc.Dest == "oversize":
+			stop.hSend(c11Oversize())
+		case fc.Dest == "wrong-type":
+			stop.hSendMsg(&pbv2.StopMessage{Type: pbv2.StopMessage_CONNECT.Enum(), Peer: util.PeerInfoToPeerV2(peer.AddrInfo{ID: sy.ids[src].id})})
+		case strings.HasPrefix(fc.Dest, "status:"):
+			var n int32
+			fmt.Sscanf(fc.Dest, "status:%d", &n)
+			st := pbv2.Status(n)
+			stop.hSendMsg(&pbv2.StopMessage{Type: pbv2.StopMessage_STATUS.Enum(), Status: &st})
+		case fc.Dest == "no-status-field":
+			stop.hSendMsg(&pbv2.StopMessage{Type: pbv2.StopMessage_STATUS.Enum()})
+		case fc.Dest == "partial-silence":
+			w := c11Marshal(okMsg)
+			stop.hSend(w[:len(w)/2])
+			synctest.Wait()
+			sleep(HandshakeTimeout)
+		case fc.Dest == "silence":
+			sleep(HandshakeTimeout)
+		case fc.Dest == "dst-disconnect":
+			sy.disconnect(dst)
+			disconnected[dst] = true
+		case fc.Dest == "src-disconnect":
+			// the source goes away while the relay waits for the destination, which then accepts
+			sy.disconnect(src)
+			disconnected[src] = true
+			stop.hSendMsg(okMsg)
+		case fc.Dest == "src-reset-then-ok":
+			hop.hReset()
+			synctest.Wait()
+			stop.hSendMsg(okMsg)
+		default:
+			panic("c11: unknown destination behaviour " + fc.Dest)
+		}
+		synctest.Wait()
+	}
+	rep := c11ReadHopReply(hop)
+	res.Reply = rep.class()
+	trace("reply to the source: %s; hop leg %s", rep.class(), hop.state())
+
+	if fc.Kind == "connect" && rep.Got && rep.Status == pbv2.Status_OK {
+		established = true
+		hopBase = hop.outPos()
+		if stop == nil {
+			vio("connect-ok-without-stop-handshake", "CONNECT answered OK but no stop stream was opened")
+			return
+		}
+		// ----- relay phase -----
+		sentF, sentB = c11Pattern(fc.Fwd, 0xA0), c11Pattern(fc.Bwd, 0x50)
+		chunk := fc.Chunk
+		if chunk <= 0 {
+			chunk = 1 << 20
+		}
+		for i := 0; i < len(sentF) || i < len(sentB); i += chunk {
+			if i < len(sentF) {
+				hop.hSend(sentF[i:min(i+chunk, len(sentF))])
+			}
+			if i < len(sentB) {
+				stop.hSend(sentB[i:min(i+chunk, len(sentB))])
+			}
+			synctest.Wait()
+		}
+		trace("payload sent; open circuit: %s", sy.observe().counters())
+		switch fc.End {
+		case "close":
+			hop.hCloseWrite()
+			stop.hCloseWrite()
+		case "src-close-only":
+			hop.hCloseWrite()
+			synctest.Wait()
+			if limited {
+				sleep(cfg.RC.Limit.Duration)
+			} else {
+				stop.hCloseWrite()
+			}
+		case "duration":
+			sleep(cfg.RC.Limit.Duration)
+		case "src-reset":
+			hop.hReset()
+		case "dst-reset":
+			stop.hReset()
+		case "src-disconnect":
+			sy.disconnect(src)
+			disconnected[src] = true
+		case "dst-disconnect":
+			sy.disconnect(dst)
+			disconnected[dst] = true
+		default:
+			panic("c11: unknown end " + fc.End)
+		}
+		synctest.Wait()
+	} else if fc.Kind == "reserve" {
+		hop.hCloseWrite()
+		synctest.Wait()
+	} else {
+		// the client gives up on a failed attempt
+		hop.hCloseWrite()
+		synctest.Wait()
+	}
+
+	// ----- audit -----
+	after := sy.observe()
+	trace("afterwards: %s", after)
+	preAlive := pre != nil && !(limited && slept >= cfg.RC.Limit.Duration) && !pre.Hop.conn.IsClosed() && !pre.Stop.conn.IsClosed()
+	ref := mid
+	if preAlive {
+		ref = before
+	}
+	if fc.Kind == "reserve" {
+		// a RESERVE (however it ends) does not touch circuit counters or reserved memory; the reservation
+		// tag may only appear together with the reservation itself
+		if a, b := c11SortedMap(after.Conns), c11SortedMap(ref.Conns); a != b {
+			vio("circuit-counters-not-restored", "%s: Relay.conns %s, previously %s", fc, a, b)
+		}
+		if after.SvcMem != ref.SvcMem {
+			vio("service-memory-not-restored", "%s: relay service scope holds %d bytes, previously %d", fc, after.SvcMem, ref.SvcMem)
+		}
+		if _, listed := after.Rsvp["p1"]; !listed && after.Tags["p1"] != ref.Tags["p1"] {
+			vio("tags-not-restored", "%s: no reservation for p1 is listed but its tags are %s, previously %s", fc, after.Tags["p1"], ref.Tags["p1"])
+		}
+		if fc.Request == "honest" && fc.Refuse == "" {
+			if !rep.Got || rep.Status != pbv2.Status_OK {
+				vio("baseline-failed", "honest RESERVE answered %s", rep.class())
+			} else if k, d := sy.checkVoucher(src, rep); k != "" {
+				vio(k, "%s", d)
+			}
+		}
+		res.Outcome = fmt.Sprintf("reserve %s -> %s", fc.class(), res.Reply)
+		return
+	}
+	if a, b := c11SortedMap(after.Conns), c11SortedMap(ref.Conns); a != b {
+		vio("circuit-counters-not-restored", "%s (reply %s): Relay.conns %s, previously %s", fc, res.Reply, a, b)
+	}
+	if after.SvcMem != ref.SvcMem {
+		vio("service-memory-not-restored", "%s (reply %s): relay service scope holds %d bytes, previously %d", fc, res.Reply, after.SvcMem, ref.SvcMem)
+	}
+	for c, cs := range cfg.Clients {
+		if disconnected[c] {
+			continue // the connection manager forgot the peer altogether
+		}
+		if after.Tags[cs.Label] != ref.Tags[cs.Label] {
+			vio("tags-not-restored", "%s (reply %s): tags of %s are %s, previously %s", fc, res.Reply, cs.Label, after.Tags[cs.Label], ref.Tags[cs.Label])
+		}
+	}
+	legs := "hop:" + hop.state()
+	if stop != nil {
+		legs += " stop:" + stop.state()
+	}
+	if established {
+		gotF := stop.allOut()[stopBase:]
+		gotB := hop.allOut()[hopBase:]
+		for _, d := range []struct {
+			name      string
+			got, sent []byte
+		}{{"source->destination", gotF, sentF}, {"destination->source", gotB, sentB}} {
+			if !bytes.HasPrefix(d.sent, d.got) {
+				vio("forwarded-bytes-not-a-prefix", "%s: %s: %d bytes delivered that are not a prefix of the %d bytes sent", fc, d.name, len(d.got), len(d.sent))
+			}
+			if limited && int64(len(d.got)) > cfg.RC.Limit.Data {
+				vio("data-limit-exceeded", "%s: %s: %d bytes forwarded, Limit.Data is %d", fc, d.name, len(d.got), cfg.RC.Limit.Data)
+			}
+		}
+		if limited && slept >= cfg.RC.Limit.Duration && (!hop.relayDone() || !stop.relayDone()) {
+			vio("circuit-open-after-duration", "%s: Limit.Duration after the circuit was opened the relay has not closed both legs: %s", fc, legs)
+		}
+		// not vacuous: payloads within the limit that the sender finished with a close arrive completely
+		if fc.End == "close" && (!limited || (int64(fc.Fwd) <= cfg.RC.Limit.Data && int64(fc.Bwd) <= cfg.RC.Limit.Data)) {
+			if !bytes.Equal(gotF, sentF) || !bytes.Equal(gotB, sentB) {
+				vio("baseline-failed", "%s: honest circuit delivered %d/%d and %d/%d bytes", fc, len(gotF), len(sentF), len(gotB), len(sentB))
+			}
+		}
+		res.Outcome = fmt.Sprintf("circuit %s end=%s -> fwd %s bwd %s; %s", fc.System, fc.End, c11Frac(len(gotF), len(sentF), limited), c11Frac(len(gotB), len(sentB), limited), legs)
+	} else {
+		if fc.Request == "honest" && fc.Refuse == "" && !fc.NoDial && fc.Dest == "ok" {
+			vio("baseline-failed", "honest CONNECT answered %s", rep.class())
+		}
+		res.Outcome = fmt.Sprintf("%s -> %s; %s", fc.class(), res.Reply, legs)
+	}
+	if pre != nil && !preAlive && limited && slept >= cfg.RC.Limit.Duration && (!pre.Hop.relayDone() || !pre.Stop.relayDone()) {
+		vio("circuit-open-after-duration", "%s: the circuit of the previous state is still open %s after it was opened", fc, slept)
+	}
+	return
+}
+
+func c11Frac(got, sent int, limited bool) string {
+	switch {
+	case got == sent:
+		return "all"
+	case limited && got == 64:
+		return "64(limit)"
+	case got == 0:
+		return "none"
+	}
+	return "part"
+}
+
+func c11FaultCases() []c11FCase {
+	var out []c11FCase
+	sizes := []int{63, 64, 65, 128, 200}
+	for _, system := range []string{"limited", "unlimited"} {
+		limited := system == "limited"
+		for _, pre := range []string{"fresh", "dst-busy", "src-busy"} {
+			base := c11FCase{System: system, Pre: pre, Kind: "connect", Request: "honest", Dest: "ok", Fwd: 63, Bwd: 63, End: "close"}
+			out = append(out, base)
+			// the source's request
+			for _, rq := range []string{"reset", "eof", "partial-eof", "partial-silence", "silence", "garbage", "oversize", "wrong-type", "no-peer", "bad-peer-id", "unknown-peer"} {
+				c := base
+				c.Request, c.End, c.Fwd, c.Bwd = rq, "", 0, 0 // (the destination stays honest, should it be asked)
+				out = append(out, c)
+			}
+			// resource refusals
+			for _, k := range c11RcmgrCalls {
+				c := base
+				c.Refuse, c.End, c.Fwd, c.Bwd = k, "", 0, 0
+				out = append(out, c)
+			}
+			// the stop stream cannot be opened
+			{
+				c := base
+				c.NoDial, c.End, c.Fwd, c.Bwd = true, "", 0, 0
+				out = append(out, c)
+			}
+			// the destination's answer
+			dests := []string{"reset-on-open", "reset", "eof", "garbage", "oversize", "wrong-type", "no-status-field", "partial-silence", "silence", "dst-disconnect", "src-disconnect", "src-reset-then-ok"}
+			for _, st := range []pbv2.Status{pbv2.Status_RESERVATION_REFUSED, pbv2.Status_RESOURCE_LIMIT_EXCEEDED, pbv2.Status_PERMISSION_DENIED, pbv2.Status_CONNECTION_FAILED, pbv2.Status_NO_RESERVATION, pbv2.Status_MALFORMED_MESSAGE, pbv2.Status_UNEXPECTED_MESSAGE, pbv2.Status_UNUSED, pbv2.Status(999)} {
+				dests = append(dests, fmt.Sprintf("status:%d", int32(st)))
+			}
+			for _, d := range dests {
+				c := base
+				c.Dest, c.End, c.Fwd, c.Bwd = d, "", 0, 0
+				out = append(out, c)
+			}
+			// the answer to the source cannot be written
+			{
+				c := base
+				c.Request, c.End, c.Fwd, c.Bwd = "honest-then-writes-fail", "", 0, 0
+				out = append(out, c)
+			}
+			// relay phase: payload sizes around the limit, each direction and both, two chunkings, two ends
+			ends := []string{"close"}
+			if limited {
+				ends = append(ends, "duration")
+			}
+			szs := sizes
+			if !limited && pre != "fresh" {
+				szs = []int{200}
+			}
+			for _, n := range szs {
+				for _, dir := range []string{"fwd", "bwd", "both"} {
+					for _, chunk := range []int{0, 7} {
+						for _, end := range ends {
+							c := base
+							c.Chunk, c.End = chunk, end
+							switch dir {
+							case "fwd":
+								c.Fwd, c.Bwd = n, 0
+							case "bwd":
+								c.Fwd, c.Bwd = 0, n
+							default:
+								c.Fwd, c.Bwd = n, n
+							}
+							if c == base {
+								continue
+							}
+							out = append(out, c)
+						}
+					}
+				}
+			}
+			// the other ways a circuit ends
+			for _, end := range []string{"src-close-only", "src-reset", "dst-reset", "src-disconnect", "dst-disconnect"} {
+				for _, n := range []int{0, 63, 200} {
+					c := base
+					c.Fwd, c.Bwd, c.End = n, n, end
+					out = append(out, c)
+				}
+			}
+		}
+		// RESERVE: however the attempt ends
+		for _, rq := range []string{"honest", "honest-then-writes-fail", "reset", "eof", "partial-eof", "silence", "garbage"} {
+			out = append(out, c11FCase{System: system, Pre: "fresh", Kind: "reserve", Request: rq})
+		}
+		for _, k := range []string{c11CallInService, c11CallInReserve} {
+			out = append(out, c11FCase{System: system, Pre: "fresh", Kind: "reserve", Request: "honest", Refuse: k})
+		}
+	}
+	return out
+}
+
+func c11Faults(t *testing.T) {
+	r := vrep.New("C11", "faults")
+	defer r.Flush()
+	cases := c11FaultCases()
+	r.Bounds["systems"] = []any{c11FaultSystem(true).describe(), c11FaultSystem(false).describe()}
+	r.Bounds["previous states"] = "fresh (destination reserved) | dst-busy (another circuit to the destination is open) | src-busy (the source already has a circuit); MaxCircuits=2"
+	r.Bounds["faults"] = "exactly one deviation per execution: source request {reset, eof, partial+eof, partial+silence, silence until StreamTimeout, garbage, oversize, wrong type, no peer, bad peer id, unknown peer}; refusal of each of " + strings.Join(c11RcmgrCalls, ", ") + "; NewStream to the destination fails; destination {reset on open, reset, eof, garbage, oversize, wrong type, STATUS without status, each non-OK status, partial+silence, silence until HandshakeTimeout, disconnects, source disconnects, source resets before the answer}; writes to the source fail"
+	r.Bounds["payloads"] = "63, 64, 65, 128, 200 bytes source->destination, destination->source and both; written at once or in 7-byte chunks; ended by close or (limited) left open until Limit.Duration; plus half-close, reset and disconnect of either side with 0/63/200 bytes"
+	r.Bounds["cases"] = len(cases)
+	results := make([]c11FResult, len(cases))
+	done := make([]bool, len(cases))
+	idx := make(chan int, len(cases))
+	for i := range cases {
+		idx <- i
+	}
+	close(idx)
+	var wg sync.WaitGroup
+	deadline := vrep.Deadline()
+	for w := 0; w < runtime.GOMAXPROCS(0); w++ {
+		wg.Add(1)
+		go func() {
+			defer wg.Done()
+			for i := range idx {
+				if time.Now().After(deadline) {
+					return
+				}
+				synctest.Test(t, func(*testing.T) {
+					defer func() {
+						if p := recover(); p != nil {
+							buf := make([]byte, 4096)
+							buf = buf[:runtime.Stack(buf, false)]
+							results[i].Case = cases[i]
+							results[i].Vios = append(results[i].Vios, c11FVio{"panic", fmt.Sprintf("%s: panic: %v\n%s", cases[i], p, buf)})
+						}
+					}()
+					results[i] = c11RunFault(cases[i])
+				})
+				done[i] = true
+			}
+		}()
+	}
+	wg.Wait()
+	classes := map[string]struct{}{}
+	skipped := 0
+	for i, res := range results {
+		if !done[i] {
+			skipped++
+			continue
+		}
+		r.Executions++
+		r.Outcome(res.Outcome)
+		classes[res.Case.class()+" => "+res.Reply] = struct{}{}
+		if i%37 == 0 {
+			r.Sample(map[string]any{"case": res.Case, "reply": res.Reply, "outcome": res.Outcome})
+		}
+		for _, v := range res.Vios {
+			r.Violate(v.Key, v.Desc, map[string]any{"part": "faults", "case": res.Case, "trace": res.Trace})
+		}
+	}
+	if skipped > 0 {
+		r.Cap("deadline reached: %d of %d fault cases not executed", skipped, len(cases))
+	}
+	r.Distinct = int64(len(classes))
+	var cl []string
+	for k := range classes {
+		cl = append(cl, k)
+	}
+	sort.Strings(cl)
+	r.Note("%d distinct (case class, reply) pairs", len(cl))
+}
